@@ -102,7 +102,7 @@ BOUNDS = [0, 1, 127, 128, 129, 16383, 16384, 16385, 2097151, 2097152, 2097153, 2
 @register
 class C15(Base):
     id = 'C15'
-    ops = ['vi_len', 'vi_total', 'vi_hlen', 'vi_rlen', 'vi_try', 'vi_write', 'vi_read', 'vi_poll', 'vi_range', 'sched', 'dec']
+    ops = ['vi_len', 'vi_total', 'vi_hlen', 'vi_rlen', 'vi_try', 'vi_write', 'vi_read', 'vi_poll', 'vi_range', 'sched', 'dec', 'big']
     rule = ('boundaries +-2 of every width, powers of 128 +-2, first invalid values, all continuation-bit patterns of '
             'up to five bytes with extreme payload bits (standalone reader and poll header machine, both families), '
             'random values, and hashed ranges (quick: windows around each boundary + random windows; thorough: all 2^28 '
@@ -163,6 +163,23 @@ class C15(Base):
                 self.unsub[c] = 'ok ' + pk.tok('v5', pkt)
                 cs.append(c)
                 hist(dist, 'unsubscribe-plen-width')
+        # the poll header machine's byte count for a body-less packet whose zero length is spelled in 1..4 bytes
+        self.zero = {}
+        for fam, cbs in (('v3', (0xc0, 0xd0, 0xe0)), ('v5', (0xc0, 0xd0, 0xe0, 0xf0))):
+            for cb in cbs:
+                for sp in (b'\x00', b'\x80\x00', b'\x80\x80\x00', b'\x80\x80\x80\x00'):
+                    for sfx in (b'', b'\xc0\x00'):
+                        c = 'dec %s %s' % (fam, pk.hx(bytes([cb]) + sp + sfx))
+                        self.zero[c] = 1 + len(sp)
+                        cs.append(c)
+                        hist(dist, 'zero-length-spellings')
+        # the encoder side of "values of 268,435,456 and above are rejected": packets around the limit (shape only)
+        for fam in ('v3', 'v5'):
+            extra = 0 if fam == 'v3' else 1
+            for rl in (2097151, 2097152, 268435454, 268435455, 268435456, 268435457, 300000000):
+                for q in (0, 1):
+                    cs.append('big %s publish %d %d %d' % (fam, 3, q, rl - 2 - 3 - (2 if q else 0) - extra))
+                    hist(dist, 'big')
         if tier == 'quick':
             wins = []
             for b in (128, 16384, 2097152, 268435456):
@@ -183,7 +200,7 @@ class C15(Base):
     def project(self, case, line):
         if case.startswith('dec '):
             f = fields(line)
-            return ';'.join('%s=%s' % (k, f.get(k, '')) for k in ('block', 'async', 'poll'))
+            return ';'.join('%s=%s' % (k, f.get(k, '')) for k in ('block', 'async', 'poll', 'ptotal'))
         return line
 
     @staticmethod
@@ -225,6 +242,23 @@ class C15(Base):
                 want = str(n - 1 - r)
             if line != want:
                 return '%s(%d) = %s, the law gives %s' % (op, n, line, want)
+        elif op == 'big':
+            fam, tl, q, pl = t[1], int(t[3]), int(t[4]), int(t[5])
+            rl = 2 + tl + (2 if q else 0) + pl + (1 if fam == 'v5' else 0)
+            f = fields(line)
+            if rl >= 268435456:
+                if f.get('len') != 'err InvalidVarByteInt' or f.get('enc') != 'err InvalidVarByteInt':
+                    return 'packet with remaining length %d is not refused: len=%s enc=%s' % (rl, f.get('len'), f.get('enc'))
+            else:
+                want = 'ok %d' % (rl + 1 + self.vlen(rl))
+                if f.get('len') != want or f.get('enc') != want:
+                    return 'packet with remaining length %d: len=%s enc=%s, total_len law gives %s' % (rl, f.get('len'), f.get('enc'), want)
+        elif op == 'dec' and case in self.zero:
+            f = fields(line)
+            n = self.zero[case]
+            if not f.get('poll', '').startswith('ok ') or f.get('ptotal') != str(n) or f.get('pused') != str(n):
+                return ('body-less packet whose zero remaining length is spelled in %d byte(s): poll decoder returns %s, reports %s '
+                        'bytes and consumed %s; the header is %d bytes' % (n - 1, f.get('poll', '')[:60], f.get('ptotal'), f.get('pused'), n))
         elif op == 'dec':
             want = self.unsub.get(case)
             if want is not None:
@@ -277,7 +311,7 @@ class C15(Base):
             return len(t[1]) > 3
         if t[0] == 'vi_poll':
             return len(t[2]) > 3
-        if t[0] in ('sched', 'dec'):
+        if t[0] in ('sched', 'dec', 'big'):
             return True
         return int(t[1]) >= 128
 
@@ -361,7 +395,8 @@ class C18(Base):
                 ('v5', 'name', ('connect', 5, 1, 10, ({}, []), b'c', (1, 0, ({}, []), s, b'm'), None, None)),
             ]
             if len(s) < 65000:
-                frames += [('v5', 'resp', ('publish', 0, 0, 0, 0, b't', ({8: s}, []), b'pl')),
+                frames += [('v5', 'name', ('publish', 0, 0, 0, 0, s, ({35: 7}, [(b'k', b'v')]), b'pl')),
+                           ('v5', 'resp', ('publish', 0, 0, 0, 0, b't', ({8: s}, []), b'pl')),
                            ('v5', 'resp', ('connect', 5, 1, 10, ({}, []), b'c', (0, 0, ({8: s}, []), b'w', b'm'), None, None))]
             for fam, where, p in frames:
                 c = 'dec %s %s' % (fam, pk.hx(pk.encode(fam, p)))
@@ -605,9 +640,20 @@ class C17(Base):
             return None
         f = fields(line)
         want = dict(eq='1' if a == b else '0', cmp='lt' if a < b else 'gt' if a > b else 'eq', hasheq='1')
+        lt, gt = a < b, a > b
+        want['ne'] = '0' if a == b else '1'
+        want['pcmp'] = want['cmp']
+        want['rel'] = ''.join('1' if x else '0' for x in (lt, not gt, gt, not lt))
+        if b.startswith(b'$share/'):
+            name, flt = b[7:].split(b'/', 1)
+            want['cf'] = '111,%s,%s' % (pk.hx(name), pk.hx(flt))
+        else:
+            want['cf'] = '110,-,-'
         for k, v in want.items():
             if f.get(k) != v:
-                return '%s of filters %s / %s: %s, from the text alone: %s' % (k, t[1][:40], t[2][:40], f.get(k), v)
+                what = {'ne': '!=', 'pcmp': 'partial_cmp', 'rel': '<,<=,>,>=',
+                        'cf': 'a.clone_from(&b) then (a == b, same text, is_shared, group, filter)'}.get(k, k)
+                return '%s of filters %s / %s: %s, from the text alone: %s' % (what, t[1][:40], t[2][:40], f.get(k), v)
         return None
 
     def nontrivial(self, case, line):
@@ -917,11 +963,12 @@ class C09(Base):
         for fam, p in ps:
             tok = pk.tok(fam, p)
             n = len(pk.encode(fam, p))
-            if n > 3000 and rng.random() < 0.8:
+            maxfield = 65530 < n < 65700
+            if n > 3000 and rng.random() < 0.8 and not maxfield:
                 continue
             cs.append('enc %s %s' % (fam, tok))
             cs.append('enc %s %s' % (fam, tok))
-            for sc in accept_scripts(rng, n):
+            for sc in (accept_scripts(rng, n) if not maxfield else ['-', 'a65536.a1']):
                 cs.append('wr %s async %s %s' % (fam, tok, sc))
                 if 'p' not in sc.split('.') and p[0] not in ('pingreq', 'pingresp') and not (
                         fam == 'v3' and p[0] in ('connack', 'puback', 'pubrec', 'pubrel', 'pubcomp', 'unsuback', 'disconnect')):
@@ -1064,6 +1111,24 @@ class C03(Base):
             b = bytes(rng.getrandbits(8) for _ in range(rng.randint(3, 40)))
             cs.append('dec %s %s' % (rng.choice(['v3', 'v5']), pk.hx(b)))
             hist(dist, 'random')
+        # rejected strings of every length up to 300 bytes made of 1-4-byte characters at every alignment, in every position
+        # whose error carries the string (topic names, filters): building the error must not fail either
+        for n in range(1, 301 if tier == 'quick' else 1200):
+            ch = ['a', '\u00e9', '\u4f60', '\U0001F600'][n % 4]
+            for bad in ('#x', '+x'):
+                body = ('a' * (n % 5) + ch * (n // len(ch.encode()) + 1)).encode()[:n]
+                try:
+                    body.decode()
+                except UnicodeDecodeError:
+                    body = body[:-1] if body[:-1] and utf8_ok(body[:-1]) else (body[:-2] if utf8_ok(body[:-2]) else body[:-3])
+                s_ = body + bad.encode()
+                for fam, p in (('v3', ('publish', 0, 0, 0, 0, s_, b'p')), ('v5', ('publish', 0, 0, 0, 0, s_, ({}, []), b'p')),
+                               ('v3', ('subscribe', 5, [(s_, 1)])), ('v5', ('unsubscribe', 5, ({}, []), [s_])),
+                               ('v5', ('publish', 0, 0, 0, 0, b't', ({8: s_}, []), b'p'))):
+                    if (n + len(bad)) % 2 and p[0] != 'publish':
+                        continue
+                    cs.append('dec %s %s' % (fam, pk.hx(pk.encode(fam, p))))
+                    hist(dist, 'rejected-string-lengths')
         # schedules on corrupted frames
         muts = [(fam, b) for fam, b, tag, _ in pool if tag == 'mut' and 0 < len(b) < 60]
         for fam, b in rng.sample(muts, min(len(muts), 1500 if tier == 'quick' else 20000)):
@@ -1139,6 +1204,41 @@ def judge_pend_sched(owner, case, line, ctx):
     return None
 
 
+NASTY_FILTERS = [b'#/#', b'a/#/#', b'+/#/#', b'#/a/#', b'$share/g/#/#', b'##', b'a#', b'#a', b'a/#/b', b'++', b'a+', b'+a', b'a/+b',
+                 b'a/b+/c', b'$share//a', b'$share/g', b'$share/g/', b'$share/g+/a', b'$share/g#/a', b'', b'a\x00b',
+                 '$share/\u00e9/'.encode(), '$share/\u4f60\u597d/'.encode(), '$share/\u00e9/a'.encode(), b'$SHARE/+/x', b'$Share/a',
+                 b'a\tb', b'\x7f', '\u0085/#'.encode(), b'$share/$share/x', b'$share/$share/#', b'#', b'+', b'/', b'//', b'+/+/#']
+
+
+def chunked_async_cases(owner, cs, dist, frames, rng, n, maxlen=400):
+    """a sample of (fam, bytes) frames through the async decoder over a transport that delivers 1..3 bytes per read with
+    Pendings in between; judged against the async result of the one-shot `dec` of the same bytes"""
+    if not hasattr(owner, 'chunk_ref'):
+        owner.chunk_ref = {}
+    pick = [(f, b) for f, b in frames if 2 <= len(b) <= maxlen and not huge_decl(b)]
+    for fam, b in rng.sample(pick, min(len(pick), n)):
+        sc = 'stream %s async %s %d' % (fam, pk.hx(b), rng.choice([1, 1, 2, 3]))
+        owner.chunk_ref[sc] = 'dec %s %s' % (fam, pk.hx(b))
+        cs.append(sc)
+        hist(dist, 'chunked-async')
+
+
+def chunked_first(line):
+    f = fields(line)
+    return ('ok ' + f.get('pkts', '').split('|')[0]) if f.get('n') not in ('0', None) else f.get('final', '')
+
+
+def judge_chunked_async(owner, case, line, ctx):
+    ref = ctx.get(owner.chunk_ref.get(case, '')) if ctx else None
+    if ref is None:
+        return None
+    got, want = chunked_first(line), fields(ref).get('async', '')
+    if got != want:
+        return ('async decoder over a transport delivering %s byte(s) per read returns %s; over a contiguous reader %s'
+                % (case.split()[4], got[:100], want[:100]))
+    return None
+
+
 def res_class(v):
     """ok / err / none / PANIC ... without the payload"""
     return v.split(' ')[0] if v else v
@@ -1173,7 +1273,7 @@ class DecBase(Base):
 @register
 class C12(DecBase):
     id = 'C12'
-    ops = ['dec']
+    ops = ['dec', 'stream']
     rule = ('everything a front-end accepts from: valid packets (multi-byte share names, boundary sizes), legal non-canonical '
             'spellings, corrupted frames, fault-catalogue frames; the harness walks every field of every returned packet '
             '(std::str::from_utf8 on each String, the library\'s own is_invalid predicates, every shared-subscription accessor '
@@ -1183,13 +1283,16 @@ class C12(DecBase):
         cs, dist, _ = self.dec_cases(rng, tier)
         g = pk.Gen(rng)
         for _ in range(300 if tier == 'quick' else 5000):
-            flt = rng.choice(['$share/你好/+'.encode(), '$share/\U0001F600/a/#'.encode(), b'$share/g//', b'$share/a b/#', g.topic_filter()])
+            flt = rng.choice(['$share/你好/+'.encode(), '$share/\U0001F600/a/#'.encode(), b'$share/g//', b'$share/a b/#', g.topic_filter(),
+                              b'$share/$share/x', b'$share/$share/abcdefgh', b'$share/$share/$share/a', b'$share/$SYS/#',
+                              '$share/é/é'.encode(), '你好/x/#'.encode(), '😀/a'.encode()])
             for fam, p in (('v3', ('subscribe', 5, [(flt, 1), (g.topic_filter(), 0)])),
                            ('v5', ('unsubscribe', 5, g.props('unsubscribe'), [g.topic_filter(), flt]))):
                 cs.append('dec %s %s' % (fam, pk.hx(pk.encode(fam, p))))
                 hist(dist, 'shared-filters')
         # ill-formed UTF-8 of every kind (truncated at the end, overlong, surrogate, > U+10FFFF, lone
         # continuation) in every kind of text position and in flagged payloads: same-length replacement of a placeholder
+        single = []
         bad = [b'\xc3', b'\xe4\xbd', b'\xf0\x9f\x98', b'\xc0\x80', b'\xed\xa0\x80', b'\xf4\x90\x80\x80', b'\x80', b'\xff',
                b'\xe0\x9f\xbf', b'\xf0\x8f\xbf\xbf']
         for pat in bad:
@@ -1228,12 +1331,48 @@ class C12(DecBase):
                         at = b0.find(x, at + 1)
                         if at < 0:
                             break
-                        cs.append('dec %s %s' % (fam, pk.hx(b0[:at] + pre + pat + b0[at + len(x):])))
+                        c1 = 'dec %s %s' % (fam, pk.hx(b0[:at] + pre + pat + b0[at + len(x):]))
+                        cs.append(c1)
+                        single.append((fam, bytes.fromhex(c1.split()[2][1:])))
                         hist(dist, 'bad-utf8-single-field')
+        # filters of every shape (valid and not) inside SUBSCRIBE / UNSUBSCRIBE: whatever comes back must hold valid filters
+        self.filters = {}
+        nasty = NASTY_FILTERS
+        _unused = [b'#/#', b'a/#/#', b'+/#/#', b'#/a/#', b'$share/g/#/#', b'##', b'a#', b'#a', b'a/#/b', b'++', b'a+', b'+a', b'a/+b',
+                 b'a/b+/c', b'$share//a', b'$share/g', b'$share/g/', b'$share/g+/a', b'$share/g#/a', b'', b'a\x00b',
+                 '$share/é/'.encode(), '$share/你好/'.encode(), '$share/é/a'.encode(), b'$SHARE/+/x', b'$Share/a', b'a\tb', b'\x7f',
+                 '\u0085/#'.encode()]
+        sp = [x for x in string_pool(rng, tier) if len(x) < 40 and utf8_ok(x)]
+        for flt in nasty + rng.sample(sp, min(len(sp), 1500 if tier == 'quick' else 30000)):
+            for fam, p in (('v3', ('subscribe', 5, [(b'ok/+', 0), (flt, 1)])), ('v3', ('unsubscribe', 5, [flt])),
+                           ('v5', ('subscribe', 5, ({}, []), [(flt, 1, 0, 0, 0)])), ('v5', ('unsubscribe', 5, ({}, []), [b'a', flt]))):
+                if rng.random() < 0.5 and flt not in nasty:
+                    continue
+                c = 'dec %s %s' % (fam, pk.hx(pk.encode(fam, p)))
+                self.filters[c] = flt
+                self.exact.add(c)
+                cs.append(c)
+                hist(dist, 'filter-shapes')
+        # the async decoder validates what it returns also when a field arrives in several reads
+        chunked_async_cases(self, cs, dist, single, rng, 600 if tier == 'quick' else 6000)
+        chunked_async_cases(self, cs, dist, [(c.split()[1], bytes.fromhex(c.split()[2][1:])) for c in cs if c.startswith('dec ')],
+                            rng, 600 if tier == 'quick' else 6000)
         return cs, dist
+
+    def context(self, cases, act):
+        need = set(self.chunk_ref.values())
+        return {c: lib.normalize(a) for c, a in zip(cases, act) if c in need}
 
     def judge(self, case, line, spec, ctx, i):
         f = fields(line)
+        if case.startswith('stream '):
+            return judge_chunked_async(self, case, line, ctx)
+        flt = self.filters.get(case)
+        if flt is not None and not (filter_rule(flt) or (False,))[0]:
+            for fe in ('block', 'async', 'poll'):
+                if f.get(fe, '').startswith('ok '):
+                    return ('%s decoder returns a packet holding the topic filter %s, which MQTT 4.7/4.8 does not allow'
+                            % (fe, pk.hx(flt)))
         for x in 'bap':
             v = f.get(x + 'inv', '-')
             if v not in ('-', 'ok'):
@@ -1242,10 +1381,15 @@ class C12(DecBase):
 
     def project(self, case, line):
         f = fields(line)
+        if case.startswith('stream '):
+            got = chunked_first(line)
+            return 'first=' + (got if self.chunk_ref.get(case) in self.exact else res_class(got))
         return self.front_ends(case, f, ('block', 'async', 'poll')) + ';' + ';'.join(
             '%s=%s' % (k, f.get(k, '').split(':')[0]) for k in ('binv', 'ainv', 'pinv'))
 
     def nontrivial(self, case, line):
+        if case.startswith('stream '):
+            return True
         return '=ok ' in line
 
 
@@ -1343,7 +1487,7 @@ class C11(DecBase):
 @register
 class C06(DecBase):
     id = 'C06'
-    ops = ['dec', 'sched']
+    ops = ['dec', 'sched', 'stream', 'hdrdec']
     rule = ('byte strings that start with a complete frame: valid encodings, spellings, fault-catalogue frames, corruptions, '
             'random bytes, with and without random suffixes; all error variants. Judge on the implementation\'s three answers: '
             'poll accepts P => blocking and async return P; poll rejects with E != InvalidRemainingLength => both return E; '
@@ -1382,6 +1526,27 @@ class C06(DecBase):
             self.chunked[sc] = c
             cs.append(sc)
             hist(dist, 'chunked-poll')
+        # ... nor on the transport handing the async decoder every field in one read
+        chunked_async_cases(self, cs, dist, [(c.split()[1], bytes.fromhex(c.split()[2][1:])) for c in small + big], rng,
+                            1500 if tier == 'quick' else 20000)
+        # bare fixed headers: Header::decode (blocking) against Header::decode_async on every prefix of up to 6 bytes
+        seen = set()
+        for c in small[:3000]:
+            fam, b = c.split()[1], bytes.fromhex(c.split()[2][1:])
+            for k in range(0, min(len(b), 6) + 1):
+                hc = 'hdrdec %s %s' % (fam, pk.hx(b[:k]))
+                if hc not in seen:
+                    seen.add(hc)
+                    cs.append(hc)
+                    hist(dist, 'bare-header')
+        for fam in ('v3', 'v5'):
+            for cb in range(256):
+                for rest in (b'', b'\x00', b'\x02', b'\x80', b'\x80\x01', b'\xff\xff\xff\x7f', b'\xff\xff\xff\xff\x01'):
+                    hc = 'hdrdec %s %s' % (fam, pk.hx(bytes([cb]) + rest))
+                    if hc not in seen:
+                        seen.add(hc)
+                        cs.append(hc)
+                        hist(dist, 'bare-header')
         return cs, dist
 
     def context(self, cases, act):
@@ -1389,6 +1554,13 @@ class C06(DecBase):
 
     def judge(self, case, line, spec, ctx, i):
         f = fields(line)
+        if case.startswith('stream '):
+            return judge_chunked_async(self, case, line, ctx)
+        if case.startswith('hdrdec '):
+            if f.get('block') != f.get('async'):
+                return ('bare fixed header: Header::decode returns %s, Header::decode_async %s'
+                        % (f.get('block', '')[:80], f.get('async', '')[:80]))
+            return None
         if case.startswith('sched '):
             ref = ctx.get(self.chunked.get(case, ''))
             if ref is not None:
@@ -1418,10 +1590,17 @@ class C06(DecBase):
         f = fields(line)
         if case.startswith('sched '):
             return 'res=' + (f.get('res', '') if self.chunked.get(case) in self.exact else res_class(f.get('res', '')))
+        if case.startswith('stream '):
+            got = chunked_first(line)
+            return 'first=' + (got if self.chunk_ref.get(case) in self.exact else res_class(got))
+        if case.startswith('hdrdec '):
+            return line
         return self.front_ends(case, f)
 
     def nontrivial(self, case, line):
-        if case.startswith('sched '):
+        if case.startswith('hdrdec '):
+            return len(case.split()[2]) > 3
+        if case.startswith('sched ') or case.startswith('stream '):
             return True
         b = bytes.fromhex(case.split()[2][1:])
         fi = frame_info(b)
